@@ -554,6 +554,19 @@ def sec_chunking(res, drv, rng, tier, n):
                 exhaustive += 1
             res.nontriv(['exh', [[op, b.hex()] for op, b in fs], tail.hex()])
     res.note('chunking.exhaustive-patterns', exhaustive)
+    # the LARGEST legal frames of the opcodes with a small limit, between small ones: OP_AUTH / OP_INFO with a 255-byte name
+    # and a 20-byte digest / nonce (281 bytes), SUBSCRIBE / UNSUBSCRIBE with two 255-byte names (516 bytes)
+    pl = side_rng(rng, 'largest-legal')
+    big_legal = [(2, b'\xff' + b'i' * 255 + bytes(range(20))), (1, b'\xff' + b'n' * 255 + bytes(range(20))),
+                 (4, b'\xff' + b'i' * 255 + b'c' * 255), (5, b'\xff' + b'\xc3\xa9' * 127 + b'x' + b'c' * 255)]
+    for k_ in range(4):
+        fs = [(3, b'\x01a\x01cx'), big_legal[k_], (0, b'e'), big_legal[(k_ + 1) % 4]]
+        tail = b'\x00\x00'
+        stream = b''.join(enc(op, b) for op, b in fs) + tail
+        for cuts in ([], [12], sorted(set(pl.randint(1, len(stream) - 1) for _ in range(4))), list(range(1, 30))):
+            script = {'section': 'chunking', 'frames': [[op, hexin(b)] for op, b in fs], 'tail': hexin(tail), 'cuts': cuts, 'mode': 'largest-legal'}
+            run_chunked(res, drv, fs, tail, cut(stream, cuts), script)
+        res.note('chunking.largest-legal')
     # bursts: MANY complete small frames available in ONE feed (a coalesced read after a stall): each must be yielded by
     # the drain that follows that feed - 129 ... several thousand, beyond any per-pass batch size
     pb = side_rng(rng, 'burst')
